@@ -565,6 +565,8 @@ pub fn generate(rng: &mut Rng, tier: Tier, cases: &mut Vec<Case>) {
         Tier::Thorough => 60000,
     };
     bounded_cases(rng, n_bounded, cases);
+    // (viii) the same solver object run again (run / run_with_upper_bound): reported value and cut stay
+    rerun_cases(rng, n_bounded / 2, cases);
 }
 
 fn bounded_cases(rng: &mut Rng, count: usize, cases: &mut Vec<Case>) {
@@ -599,16 +601,42 @@ fn bounded_cases(rng: &mut Rng, count: usize, cases: &mut Vec<Case>) {
     }
 }
 
+fn rerun_cases(rng: &mut Rng, count: usize, cases: &mut Vec<Case>) {
+    let mut c = case_from("rerun", 0, 4, &D1_WITNESS);
+    c.ops.insert(1, "rr 2".to_string());
+    cases.push(c);
+    for i in 0..count {
+        let (s, t, es) = match i % 3 {
+            0 => d1_shaped(rng),
+            1 => layered(rng),
+            _ => random_multi(rng),
+        };
+        let es = in_range(s, t, es);
+        if !in_domain(&es, s, t) {
+            continue;
+        }
+        let mut c = case_from("rerun", s, t, &es);
+        c.ops.insert(1, format!("rr {}", 1 + rng.below(3)));
+        cases.push(c);
+    }
+}
+
 fn bounded_case(family: &str, s: usize, t: usize, edges: &[E], bound: i32) -> Case {
     let mut c = case_from(family, s, t, edges);
     c.ops.insert(1, format!("ub {bound}"));
     c
 }
 
+thread_local! {
+    /// number of additional runs of the case being executed (`rr k` header), read by `observe`
+    static RERUNS: std::cell::Cell<usize> = const { std::cell::Cell::new(0) };
+}
+
 fn parse(c: &Case) -> Option<(usize, usize, Option<usize>, Option<i32>, Vec<E>)> {
     let mut st = None;
     let mut generic = None;
     let mut ub = None;
+    RERUNS.with(|r| r.set(0));
     let mut edges = Vec::new();
     for l in &c.ops {
         let t: Vec<&str> = l.split_whitespace().collect();
@@ -616,6 +644,7 @@ fn parse(c: &Case) -> Option<(usize, usize, Option<usize>, Option<i32>, Vec<E>)>
             Some("st") if t.len() == 3 => st = Some((t[1].parse().ok()?, t[2].parse().ok()?)),
             Some("gen") if t.len() == 2 => generic = Some(t[1].parse().ok()?),
             Some("ub") if t.len() == 2 => ub = Some(t[1].parse().ok()?),
+            Some("rr") if t.len() == 2 => RERUNS.with(|r| r.set(t[1].parse().unwrap_or(0))),
             Some("e") if t.len() == 4 => edges.push((t[1].parse().ok()?, t[2].parse().ok()?, t[3].parse().ok()?)),
             _ => return None,
         }
@@ -686,6 +715,28 @@ fn observe<S: MaxFlow>(
     obs.push(format!("F {name} res={}", triples(&residual(&solver))));
     if let Some(b) = &shared {
         obs.push(format!("F {name} bound={}", b.load(std::sync::atomic::Ordering::SeqCst)));
+    }
+    // `rr k`: the same object is run k more times (run / run_with_upper_bound(i32::MAX) alternating); what it
+    // reports afterwards is still determined by the property
+    let k = RERUNS.with(|r| r.get());
+    if k > 0 {
+        for i in 0..k {
+            if i % 2 == 0 {
+                solver.run();
+            } else {
+                solver.run_with_upper_bound(std::sync::Arc::new(std::sync::atomic::AtomicI32::new(i32::MAX)));
+            }
+        }
+        match solver.max_flow() {
+            Ok(x) => obs.push(format!("D {name} flow2={x}")),
+            Err(_) => obs.push(format!("D {name} flow2=ERR")),
+        }
+        if with_assign {
+            match solver.assignment(s) {
+                Ok(x) => obs.push(format!("D {name} assign2={}", bits(&x))),
+                Err(_) => obs.push(format!("D {name} assign2=ERR")),
+            }
+        }
     }
 }
 
